@@ -15,6 +15,7 @@ import (
 	"verifsim/core"
 	"verifsim/faultdb"
 	"verifsim/models/ledger"
+	"verifsim/simrt"
 )
 
 var nsKey = []byte("wtxmgr")
@@ -250,6 +251,10 @@ func (sim) Execute(env *core.Env, p *core.Plan) {
 	u := buildUniverse(p.Seed, cfg)
 	params := chaincfg.RegressionNetParams // a copy: maturity is a per-run knob
 	params.CoinbaseMaturity = uint16(cfg.maturity)
+
+	// map iteration order inside wtxmgr is a seeded choice of the run
+	simrt.SetMapSeed(runSeed(p.Seed))
+	defer simrt.SetMapSeed(0)
 
 	if ns := time.Now().Nanosecond(); ns != 0 {
 		env.Fail(p.Prop, "harness:clock-not-whole-second", "fake clock starts at %v", time.Now())
